@@ -329,6 +329,141 @@ func runC10(c *Ctx) {
 	}
 
 	// ---- R5 parser recursion
+	c.rule("C10-R10", "LOOP-PROGRESS: every loop of the parser and the lexers whose continuation depends on the cursor (its body or header consults check / peek / isAtEnd / the position or the input index) consumes input or leaves on every way around: no path from the loop head back to it avoids every instruction that moves the cursor (a store to Parser.position / Lexer.position / readPosition, or a call to a method of the same type that - transitively - makes one). An input on which some branch neither advances nor fails makes Parse spin on one token for ever")
+	{
+		type cur struct{ typ, field string }
+		cursors := []cur{{"Parser", "position"}, {"Lexer", "position"}, {"Lexer", "readPosition"}, {"ExpandedLexer", "position"}, {"ExpandedLexer", "readPosition"}}
+		movesDirect := func(x ssa.Instruction) bool {
+			for _, cu := range cursors {
+				if isStoreToField(x, cu.typ, cu.field) {
+					return true
+				}
+			}
+			return false
+		}
+		movesMemo := map[*ssa.Function]bool{}
+		var moves func(fn *ssa.Function) bool
+		moves = func(fn *ssa.Function) bool {
+			if v, ok := movesMemo[fn]; ok {
+				return v
+			}
+			movesMemo[fn] = false
+			r := reachesInstr(fn, movesDirect, 0, map[*ssa.Function]bool{})
+			movesMemo[fn] = r
+			return r
+		}
+		readsCursor := func(x ssa.Instruction) bool {
+			if v, ok := x.(ssa.Value); ok {
+				for _, cu := range cursors {
+					if loadedFromField(v, cu.typ, cu.field) {
+						return true
+					}
+				}
+			}
+			if call, ok := x.(ssa.CallInstruction); ok {
+				if sf := staticFn(call); sf != nil && sf.Pkg != nil && sf.Pkg.Pkg.Path() == parserPath && sf.Signature.Recv() != nil && !moves(sf) {
+					// a read-only method of the parser/lexer: check, peek, isAtEnd, current …
+					return reachesInstr(sf, func(y ssa.Instruction) bool {
+						if v, ok := y.(ssa.Value); ok {
+							for _, cu := range cursors {
+								if loadedFromField(v, cu.typ, cu.field) {
+									return true
+								}
+							}
+						}
+						return false
+					}, 0, map[*ssa.Function]bool{})
+				}
+			}
+			return false
+		}
+		progress := func(x ssa.Instruction) bool {
+			if movesDirect(x) {
+				return true
+			}
+			if call, ok := x.(ssa.CallInstruction); ok {
+				if _, isGo := x.(*ssa.Go); isGo {
+					return false
+				}
+				if sf := staticFn(call); sf != nil && sf.Pkg != nil && sf.Pkg.Pkg.Path() == parserPath && moves(sf) {
+					return true
+				}
+			}
+			return false
+		}
+		nLoops := 0
+		for _, fn := range c.srcFuncs(parserPkg) {
+			k := 0
+			for _, lp := range naturalLoops(fn) {
+				// cursor-driven?
+				driven := false
+				for b := range lp.body {
+					for _, ins := range b.Instrs {
+						if readsCursor(ins) {
+							driven = true
+						}
+					}
+				}
+				if !driven || lp.isBoundedIteration() {
+					continue
+				}
+				nLoops++
+				k++
+				// a way around the loop without progress: from the head, reach a back edge while staying inside the body
+				type item struct {
+					b    *ssa.BasicBlock
+					prev *item
+				}
+				seen := map[*ssa.BasicBlock]bool{lp.head: true}
+				queue := []*item{{lp.head, nil}}
+				var found *item
+				for len(queue) > 0 && found == nil {
+					it := queue[0]
+					queue = queue[1:]
+					blocked := false
+					for _, ins := range it.b.Instrs {
+						if progress(ins) {
+							blocked = true
+							break
+						}
+					}
+					if blocked {
+						continue
+					}
+					for _, succ := range it.b.Succs {
+						if !lp.body[succ] {
+							continue
+						}
+						if succ == lp.head {
+							found = &item{succ, it}
+							break
+						}
+						if !seen[succ] {
+							seen[succ] = true
+							queue = append(queue, &item{succ, it})
+						}
+					}
+				}
+				var path []*ssa.BasicBlock
+				for p := found; p != nil; p = p.prev {
+					path = append([]*ssa.BasicBlock{p.b}, path...)
+				}
+				pos := fn.Pos()
+				if len(lp.head.Instrs) > 0 && lp.head.Instrs[0].Pos() != token.NoPos {
+					pos = lp.head.Instrs[0].Pos()
+				}
+				c.ob("C10-R10", fnKey(fn)+"#loop-"+itoa(k)+"-consumes-input-on-every-way-around", pos, found == nil, "this loop continues while the cursor has not reached some token, but one way around it neither moves the cursor nor leaves the loop: on an input that takes that branch (a `-` not followed by a number in an annotation) the parser spins on the same token for ever instead of reporting an error", c.blockPath(path)...)
+			}
+		}
+		c.Sites["C10-R10#cursor-driven-loops"] = nLoops
+		if nLoops < 20 {
+			c.undecided("C10-R10: only %d cursor-driven loops found in pkg/parser, floor 20", nLoops)
+		}
+	}
+
+	c.rule("C10-R9", "MPT: whatever bytecode is loaded, its execution is bounded: VM.runLoop compares its step counter with maxSteps inside the dispatch loop and the over-limit edge returns an error - the count is taken per dispatched instruction, not at particular opcodes (a hand-made file can close a loop with JUMP_IF_TRUE where the compiler would emit JUMP)")
+	stepLimitInRunLoop(c, "C10-R9")
+
 	c.rule("C10-R8", "MPT: the decompiler's listing covers the whole code section: the loop of Decompiler.Decompile that reads instructions (calls readInstruction) is left, once an instruction has been read in an iteration, only towards an error return - every other exit is the loop's own bounds test before the next read. A `break` on an opcode (HALT is also what ends an embedded async body) lists only part of what the VM executes, without an error")
 	if dc := c.mustFn("C10-R8", decompPkg, "Decompiler.Decompile"); dc != nil {
 		nLoops := 0
